@@ -79,6 +79,16 @@ mutual
     | c :: cs => groupsNonEmpty c && groupsNonEmptyList cs
 end
 
+mutual
+  /-- groups carry no physical type, leaves carry one (as the format requires) -/
+  def typed : Node → Bool
+    | .leaf i => i.ptype.isSome
+    | .group i cs => i.ptype.isNone && typedList cs
+  def typedList : List Node → Bool
+    | [] => true
+    | c :: cs => typed c && typedList cs
+end
+
 end Carquet.Spec.Schema
 
 namespace Carquet.Spec.Schema
